@@ -87,6 +87,49 @@ def isNil : SqrtQ → Bool
 
 def allRange (n : Nat) (p : Nat → Bool) : Bool := (List.range n).all p
 
+/-! Every check below is `allRange n rowPredicate`.  For large configurations the certificate files decide the row
+predicate on consecutive blocks of rows in separate theorems (bounded kernel memory) and glue them with
+`allRange_of_blocks`. -/
+
+/-- `p i` for `lo ≤ i < hi` -/
+def allFromTo (lo hi : Nat) (p : Nat → Bool) : Bool := (List.range (hi - lo)).all fun i => p (lo + i)
+
+/-- the blocks are `[(lo,a),(a,b),…,(y,n)]` -/
+def coverB : Nat → Nat → List (Nat × Nat) → Bool
+  | lo, n, [] => lo == n
+  | lo, n, ab :: rest => ab.1 == lo && Nat.ble ab.1 ab.2 && coverB ab.2 n rest
+
+def blocksOk (p : Nat → Bool) : List (Nat × Nat) → Prop
+  | [] => True
+  | ab :: rest => allFromTo ab.1 ab.2 p = true ∧ blocksOk p rest
+
+theorem blocksOk_nil {p : Nat → Bool} : blocksOk p [] := trivial
+theorem blocksOk_cons {p : Nat → Bool} {lo hi : Nat} {rest : List (Nat × Nat)} (h : allFromTo lo hi p = true)
+    (t : blocksOk p rest) : blocksOk p ((lo, hi) :: rest) := ⟨h, t⟩
+
+theorem allFromTo_spec {lo hi : Nat} {p : Nat → Bool} (h : allFromTo lo hi p = true) (i : Nat) (h1 : lo ≤ i) (h2 : i < hi) :
+    p i = true := by
+  simp only [allFromTo, List.all_eq_true, List.mem_range] at h
+  have := h (i - lo) (by omega)
+  rwa [show lo + (i - lo) = i by omega] at this
+
+theorem blocks_spec {n : Nat} {p : Nat → Bool} : ∀ (bs : List (Nat × Nat)) (lo : Nat), coverB lo n bs = true →
+    blocksOk p bs → ∀ i, lo ≤ i → i < n → p i = true
+  | [], lo, hc, _, i, h1, h2 => by
+    simp only [coverB, beq_iff_eq] at hc
+    omega
+  | ab :: rest, lo, hc, hb, i, h1, h2 => by
+    simp only [coverB, Bool.and_eq_true, beq_iff_eq, Nat.ble_eq] at hc
+    by_cases hi : i < ab.2
+    · exact allFromTo_spec hb.1 i (by omega) hi
+    · exact blocks_spec rest ab.2 hc.2 hb.2 i (by omega) h2
+
+theorem allRange_of_blocks {n : Nat} {p : Nat → Bool} (bs : List (Nat × Nat)) (hc : coverB 0 n bs = true)
+    (hb : blocksOk p bs) : allRange n p = true := by
+  simp only [allRange, List.all_eq_true, List.mem_range]
+  intro i hi
+  exact blocks_spec bs 0 hc hb i (Nat.zero_le _) hi
+
 /-- `p x` for every multi-index `x` of the index list `L` -/
 def allIdxL : (L : List (List Ir)) → (List Nat → Bool) → Bool
   | [], p => p []
@@ -161,17 +204,18 @@ def groupCheck (c : Cfg) : Bool :=
   allIdxL c.irIn fun x => G.all fun a => validIdxL c.irIn (act x a.2)
 
 /-- (i) `Q Qᵀ = 1` (pairs `z ≤ z'`) -/
-def orthoCheck (c : Cfg) : Bool :=
-  all2 c.D c.D fun z z' =>
+def orthoRow (c : Cfg) (z : Nat) : Bool :=
+  allRange c.D fun z' =>
     Nat.blt z' z || (tdot c.irIn (c.row z) (c.row z') - (if z == z' then SqrtQ.one else [])).isZero
+def orthoCheck (c : Cfg) : Bool := allRange c.D (orthoRow c)
 
 def sgnMul (s : Int) (v : SqrtQ) : SqrtQ := if s == 1 then v else -v
 
 /-- (ii) every row satisfies every formula of the group: `Q[z, x] = s · Q[z, x∘p]` -/
-def symCheck (c : Cfg) : Bool :=
-  let G := c.group
-  allRange c.D fun z => allIdxL c.irIn fun x => G.all fun a =>
+def symRow (c : Cfg) (z : Nat) : Bool :=
+  allIdxL c.irIn fun x => c.group.all fun a =>
     (tget c.irIn (c.row z) x - sgnMul a.1 (tget c.irIn (c.row z) (act x a.2))).isZero
+def symCheck (c : Cfg) : Bool := allRange c.D (symRow c)
 
 /-- `|G| · (QᵀQ)[x, ·]` as a tensor: `Σ_z (|G| · Q[z,x]) · Q[z, ·]` -/
 def mRow (c : Cfg) (x : List Nat) : Tens c.irIn :=
@@ -186,8 +230,19 @@ def subTargets (L : List (List Ir)) (x : List Nat) : List SPerm → Tens L → T
   | a :: G, t => subTargets L x G (tupd (fun e => e - SqrtQ.ofInt a.1) L t (act x a.2))
 
 /-- (iii) `|G| · (QᵀQ)[x, y] = Σ_{(s,p) ∈ G, x∘p = y} s`, i.e. `QᵀQ` is the group average -/
-def complCheck (c : Cfg) : Bool :=
-  allIdxL c.irIn fun x => tallZero c.irIn (subTargets c.irIn x c.group (mRow c x))
+def firstDim : List (List Ir) → Nat
+  | [] => 1
+  | s :: _ => irDim s
+
+/-- `p (k :: t)` for all multi-indices `t` of the remaining indices -/
+def allIdxTail : (L : List (List Ir)) → Nat → (List Nat → Bool) → Bool
+  | [], _, p => p []
+  | _ :: L, k, p => allIdxL L fun t => p (k :: t)
+
+/-- rows `x = (k, ·)` of the identity -/
+def complRow (c : Cfg) (k : Nat) : Bool :=
+  allIdxTail c.irIn k fun x => tallZero c.irIn (subTargets c.irIn x c.group (mRow c x))
+def complCheck (c : Cfg) : Bool := allRange (firstDim c.irIn) (complRow c)
 
 /-- number of rows = number of non-cancelling orbits of `reduce_permutation` (C17) -/
 def countCheck (c : Cfg) : Bool := c.D == (reduceCore c.group c.dims).length
@@ -199,18 +254,18 @@ def lhsRow (c : Cfg) (Xo : Mat) (z : Nat) : Tens c.irIn :=
     (tfull c.irIn)
 
 /-- (iv) `X_out^a · Q = Q · (Kronecker sum of the index generators X^a)` -/
-def interCheck (c : Cfg) (a : Nat) : Bool :=
-  let Xo := bdMat a c.irOut
-  allRange c.D fun z => teq c.irIn (lhsRow c Xo z) (tks a c.irIn (c.row z))
+def interRow (c : Cfg) (a : Nat) (z : Nat) : Bool :=
+  teq c.irIn (lhsRow c (bdMat a c.irOut) z) (tks a c.irIn (c.row z))
+def interCheck (c : Cfg) (a : Nat) : Bool := allRange c.D (interRow c a)
 
 def parIdx : List (List Ir) → List Nat → Bool
   | irs :: rest, x :: xs => xor (parAt irs x) (parIdx rest xs)
   | _, _ => false
 
 /-- (v) a non-zero entry couples components whose parities multiply to the row's parity -/
-def parityCheck (c : Cfg) : Bool :=
-  allRange c.D fun z => allIdxL c.irIn fun x =>
-    isNil (tget c.irIn (c.row z) x) || parAt c.irOut z == parIdx c.irIn x
+def parityRow (c : Cfg) (z : Nat) : Bool :=
+  allIdxL c.irIn fun x => isNil (tget c.irIn (c.row z) x) || parAt c.irOut z == parIdx c.irIn x
+def parityCheck (c : Cfg) : Bool := allRange c.D (parityRow c)
 
 /-! ### `main`: the coefficient polynomials of the FX program are `Σ_x Q[z,x] · x₁[b,x₁] ⋯ xₙ[b,xₙ]` -/
 
@@ -228,9 +283,15 @@ def tterms : (L : List (List Ir)) → Tens L → List Nat → Mono → List (Mon
 
 def expPoly (c : Cfg) (B b z : Nat) : Poly := tterms c.irIn (c.row z) (varBases B b 0 c.irIn) []
 
+/-- output `i = b·D + z` of the program has the expected coefficient polynomial -/
+def progRow (c : Cfg) (B : Nat) (prog : List IR.Node) (i : Nat) : Bool :=
+  Poly.beq ((IR.interpPoly prog).getD i []) (expPoly c B (i / c.D) (i % c.D))
+def progLen (c : Cfg) (B : Nat) (prog : List IR.Node) : Bool := (IR.interpPoly prog).length == B * c.D
 def progCheck (c : Cfg) (B : Nat) (prog : List IR.Node) : Bool :=
-  let out := IR.interpPoly prog
-  out.length == B * c.D &&
-    allRange B fun b => allRange c.D fun z => Poly.beq (out.getD (b * c.D + z) []) (expPoly c B b z)
+  progLen c B prog && allRange (B * c.D) (progRow c B prog)
+
+theorem progCheck_of {c : Cfg} {B : Nat} {prog : List IR.Node} (h1 : progLen c B prog = true)
+    (h2 : allRange (B * c.D) (progRow c B prog) = true) : progCheck c B prog = true := by
+  simp [progCheck, h1, h2]
 
 end E3nnVerif.Model.RTP
